@@ -28,6 +28,7 @@ func init() {
 		Scenarios: []Scenario{{Name: "S-LIVE/client", Weight: 1, Run: c09Run}},
 		Quick:     200000,
 		Thorough:  3000000,
+		Require:   []string{"blocked.when:local-close", "blocked.when:peer-fin", "blocked.when:peer-reset", "interrupted.whileBlocked:cancel", "close.whileReaderBlockedOnFullQueue", "socket.deadOnArrival"},
 		Assume: []string{
 			"bounded delay D = one tick interval (4 s) + 1 s of simulated time after the interrupting event (for a deadline: after the deadline), with one housekeeping tick in between and nothing further delivered",
 			"connections are built like Dial does (the library owns and closes the socket); server-side Stop / Serve and discovery are exercised by C10's scenarios",
